@@ -67,7 +67,8 @@ CHECKS = {
          "(all states x classes) and of the LALR loop is in range, the default chain ends within its fuel, C03_lalr_states (every "
          "parser state along every run is < 47), C03_no_error_shift. Bounded recursion: yyparseLoop is the iteration of a one-step "
          "function; C03_stack_bounded (never more than the documented 10000 entries), C03_stack_limit (then 'memory exhausted'). "
-         "Container arithmetic for every operation sequence, parametric in the chunk constants: strbuf (length+len+1 <= capacity, the "
+         "Container arithmetic for every operation sequence, parametric in the chunk constants: flex's input buffer (C20B_in_bounds, "
+         "Properties/C20Buffer.lean), strbuf (length+len+1 <= capacity, the "
          "& ~63 form = arithmetic rounding), strvec, child vectors (store index inside the allocation after any adds/removes), "
          "libconfig_format_double (never more than buflen bytes). Termination (Properties/C03Term.lean): every match consumes >= 1 byte; "
          "C03_no_underflow (along every run a reduction finds more stack entries than it pops: the model's drop/headD never "
@@ -226,7 +227,7 @@ CHECKS = {
          "config_read_string, config_read on fmemopen and on an fopencookie stream delivering 1/7/4095/4096/8191/8192/8193/random-sized "
          "pieces, an fopencookie stream whose delivery is interrupted by a signal (EINTR) and resumed, and config_read_file, with every token kind slid across the 8 KiB, 16 KiB (and 32 KiB) boundaries and single tokens "
          "that exactly fill or overflow flex's 16 KiB buffer; direct oracle: equal result, error text, line and tree."),
-   note=TB + "flex's buffer pointer arithmetic (yy_get_next_buffer) is generated code outside the model, exercised under ASan.",
+   note=TB + "flex's buffer refill arithmetic is modelled too (FlexBuffer.lean: yy_create_buffer / yy_flush_buffer / yy_get_next_buffer stage by stage, pinned to the generated text by Properties/Skeleton.lean and validated against an instrumented scanner.c) with C20B_in_bounds (every load and store inside the current allocation, num_to_read >= 1 whenever YY_INPUT is called), C20B_content (no byte lost or duplicated across moves, growth and refills), C20B_progress / C20B_no_livelock, C20B_flex_many (the buffered matcher = Flex.next on the idealised input) and C20B_seeded_breaks_all (with the growth test `< 0` the invariant fails for every buffer size: the seeded change, refuted in general). yyrealloc is assumed to succeed; sizes are Nat with an explicit no-overflow condition (streams shorter than 2^30-1 bytes).",
    technique='chunking-independence and entry-point simulation theorems in Lean 4 + differential correspondence at buffer boundaries', ref='§5 C20'),
  'C16': dict(
    text=("Conservation theorems: with a destructor registered, every operation (C16_conservation) and every read "
